@@ -685,9 +685,13 @@ pub fn check_main(engine: &dyn Engine, o: &CheckOptions) -> i32 {
         }
     }
     let mut reasons = agg.inconclusive.clone();
-    reasons.extend(engine.floors(&o.prop, o.tier, &agg));
+    let replay = o.only_case.is_some();
     let wall = t0.elapsed().as_secs_f64();
-    write_evidence(engine, o, &agg, &root, wall, new_viol.len(), &known_lines);
+    if !replay {
+        // floors and the evidence file describe whole runs, not the replay of one case
+        reasons.extend(engine.floors(&o.prop, o.tier, &agg));
+        write_evidence(engine, o, &agg, &root, wall, new_viol.len(), &known_lines);
+    }
 
     println!(
         "property={} tier={} seed={} cases={} evaluations={} distinct_nontrivial={} wall_s={:.1}",
@@ -737,6 +741,10 @@ pub fn check_main(engine: &dyn Engine, o: &CheckOptions) -> i32 {
             println!("INCONCLUSIVE property={} reason={}", o.prop, r);
         }
         return 2;
+    }
+    if replay {
+        println!("REPLAY property={} case={:?}: no violation observed on the current tree", o.prop, o.only_case);
+        return 0;
     }
     println!("HELD property={} on everything explored", o.prop);
     0
